@@ -71,6 +71,26 @@ def sets_from_summary(text, rules_file):
     return {'PASS': sorted(out['PASS']), 'FAIL': sorted(out['FAIL']), 'SKIP': sorted(out['SKIP']), 'status': status}
 
 
+_YAML12_NUM = re.compile(r'[-+]?(\.[0-9]+|[0-9]+(\.[0-9]*)?)([eE][-+]?[0-9]+)?$')
+
+
+def same_yaml_json(y, j):
+    """equality of a YAML document as PyYAML reads it and a JSON document: PyYAML follows YAML 1.1, where a float needs a dot
+    (`1e308` is a string there); the tool writes YAML 1.2, where it is a float - such strings equal the number they spell"""
+    if isinstance(y, str) and isinstance(j, (int, float)) and not isinstance(j, bool) and _YAML12_NUM.match(y):
+        try:
+            return float(y) == float(j)
+        except ValueError:
+            return False
+    if isinstance(y, dict) and isinstance(j, dict):
+        return set(y) == set(j) and all(same_yaml_json(y[k], j[k]) for k in y)
+    if isinstance(y, list) and isinstance(j, list):
+        return len(y) == len(j) and all(same_yaml_json(a, b) for a, b in zip(y, j))
+    if isinstance(y, bool) != isinstance(j, bool):
+        return False
+    return y == j
+
+
 def split_json_docs(text):
     """-o json without --structured prints one pretty JSON document per data file, possibly followed by other text"""
     dec = json.JSONDecoder()
@@ -203,9 +223,9 @@ def run_cross(ctx, n, thorough):
                 try:
                     y = yaml.safe_load(runs[lab][1].decode())
                     j = json.loads(runs[jl][1].decode()) if jl == 's-json' else (split_json_docs(runs[jl][1].decode()) or [None])[0]
-                    if jl == 's-json' and y != j:
+                    if jl == 's-json' and not same_yaml_json(y, j):
                         ctx.failing('structured YAML and JSON outputs denote different data', dict(info, mode=lab), found=True)
-                    if jl == 'o-json' and y != j:
+                    if jl == 'o-json' and not same_yaml_json(y, j):
                         ctx.failing('-o yaml and -o json outputs denote different data', dict(info, mode=lab), found=True)
                     yy = y[0] if isinstance(y, list) else y
                     views[lab] = sets_from_report(yy)
